@@ -6,7 +6,8 @@
 set -u
 id=$1
 wt=/tmp/wt/$id
-demo=${2:-$(dirname "$(find $wt/MUTANT/demo -name Cargo.toml -not -path '*/target/*' | head -1)")}
+if [ -f $wt/MUTANT/demo/Cargo.toml ]; then d0=$wt/MUTANT/demo; else d0=$(dirname "$(find $wt/MUTANT/demo -name Cargo.toml -not -path '*/target/*' | head -1)"); fi
+demo=${2:-$d0}
 export CARGO_TARGET_DIR=$wt/target CARGO_NET_OFFLINE=true RUST_BACKTRACE=0
 out=$wt/CONFIRM.txt
 : > $out
